@@ -4176,6 +4176,218 @@ fn stream_lex(m: &mut Model, rep: &mut Report, rng: &Rng, thorough: bool) {
     }
 }
 
+
+// ------------------------------------------------------------------ expression parser on text (Text.lean)
+
+/// replace the byte-offset placeholders of a `ptext` answer by what `sx` prints for the real token there
+fn t_expand(ans: &str, text: &str) -> String {
+    use np::TokenKind as TK;
+    let toks = np::tokenize(text);
+    let find = |lo: usize| toks.iter().find(|t| t.span.start.0 as usize == lo);
+    let b = ans.as_bytes();
+    let mut out = String::new();
+    let mut i = 0;
+    while i < b.len() {
+        let word_start = i == 0 || matches!(b[i - 1], b' ' | b'(' | b'=');
+        if word_start {
+            let at = b[i] == b'@';
+            let j0 = if at { i + 1 } else { i };
+            if j0 + 1 < b.len() && matches!(b[j0], b'l' | b'i' | b'k' | b'g') && b[j0 + 1].is_ascii_digit() {
+                let mut j = j0 + 1;
+                while j < b.len() && b[j].is_ascii_digit() {
+                    j += 1;
+                }
+                if j == b.len() || matches!(b[j], b' ' | b')') {
+                    let lo: usize = ans[j0 + 1..j].parse().unwrap();
+                    let rep = match (b[j0], at, find(lo).map(|t| &t.kind)) {
+                        (b'l', false, Some(TK::Integer(n))) => format!("int:{n}"),
+                        (b'l', false, Some(TK::Float(f))) => format!("f64:{:016x}", f.to_bits()),
+                        (b'l', false, Some(TK::String(s))) => format!("str:{s:?}"),
+                        (b'l', false, Some(TK::True)) => "bool:true".into(),
+                        (b'l', false, Some(TK::False)) => "bool:false".into(),
+                        (b'i', false, Some(TK::Ident(n))) => format!("id:{n}"),
+                        (b'i', true, Some(TK::Ident(n))) => n.clone(),
+                        (b'k', false, Some(k)) => format!("id:{}", k.as_str().to_lowercase()),
+                        (b'k', true, Some(k)) => k.as_str().to_lowercase(),
+                        (b'g', true, Some(k)) => k.as_str().to_string(),
+                        _ => format!("?{}", &ans[i..j]),
+                    };
+                    out.push_str(&rep);
+                    i = j;
+                    continue;
+                }
+            }
+        }
+        out.push(b[i] as char);
+        i += 1;
+    }
+    out
+}
+
+fn t_canon_err(e: &np::ParseError, shift: usize) -> String {
+    let at = (e.span.start.0 as usize).saturating_sub(shift);
+    match &e.kind {
+        ParseErrorKind::TooDeep => format!("err too_deep {at}"),
+        ParseErrorKind::UnexpectedEof { expected } => format!("err eof {} {at}", expected.replace(' ', "_")),
+        ParseErrorKind::UnexpectedToken { expected, .. } => format!("err unexpected {} {at}", expected.replace(' ', "_")),
+        ParseErrorKind::InvalidSyntax(msg) => {
+            let tag = if msg.contains("qualified wildcard") {
+                "qualwild"
+            } else if msg.contains("at least one WHEN") {
+                "case_no_when"
+            } else if msg.contains("EXISTS") {
+                "exists"
+            } else {
+                "other"
+            };
+            format!("err invalid {tag} {at}")
+        }
+        other => format!("err other:{other:?} {at}"),
+    }
+}
+
+fn t_has_clause_keyword(text: &str) -> bool {
+    np::tokenize(text).iter().any(|t| {
+        matches!(t.kind, np::TokenKind::Group | np::TokenKind::Having | np::TokenKind::Order | np::TokenKind::Limit | np::TokenKind::Offset)
+    })
+}
+
+/// one text through `parse_expr` and through the WHERE clause of the statement parser against `ptext`
+fn text_case(m: &mut Model, rep: &mut Report, text: &str, stream: &str) {
+    let enc = lex_enc(text);
+    let t1 = text.to_string();
+    let imp = match guarded(move || np::parse_expr(&t1)) {
+        Ok(Ok(e)) => format!("ok {}", sx(&e)),
+        Ok(Err(e)) => {
+            let at = e.span.start.0 as usize;
+            if at > text.len() || !text.is_char_boundary(at) {
+                viol_once(rep, "neumann_parser::parse_expr/error_position_outside_input",
+                    &format!("error {:?} at byte {at} of a text of {} bytes", e.kind, text.len()), json!({"text": text}));
+            }
+            t_canon_err(&e, 0)
+        }
+        Err(p) => {
+            viol_once(rep, "neumann_parser::parse_expr/panic", &format!("parse_expr panicked: {p}"), json!({"text": text}));
+            format!("panic {p}")
+        }
+    };
+    let model = t_expand(&m.ask(&format!("ptext expr {enc}")), text);
+    let s1 = format!("{stream}.expr");
+    rep.case(&s1, if text.len() >= 3 { Some(text) } else { None });
+    rep.compare(&s1, || json!({"text": text}), &imp, &model);
+    rep.hit(&format!("text.result.{}", f_tag(&imp)));
+    // statement parser
+    if t_has_clause_keyword(text) {
+        rep.hit("text.stmt.skipped_clause_keyword");
+        return;
+    }
+    let smodel = t_expand(&m.ask(&format!("ptext stmt {enc}")), text);
+    if smodel == "outside" {
+        rep.hit("text.stmt.outside");
+        return;
+    }
+    let full = format!("{STMT_PREFIX}{text}");
+    let f2 = full.clone();
+    let simp = match guarded(move || np::parse(&f2)) {
+        Ok(Ok(st)) => match st.kind {
+            StatementKind::Select(s) => match s.where_clause {
+                Some(w) => format!("ok {}", sx(&w)),
+                None => "ok <no-where>".into(),
+            },
+            _ => "ok <not-select>".into(),
+        },
+        Ok(Err(e)) => {
+            let at = e.span.start.0 as usize;
+            if at > full.len() || !full.is_char_boundary(at) {
+                viol_once(rep, "neumann_parser::parse/error_position_outside_input",
+                    &format!("error {:?} at byte {at} of a text of {} bytes", e.kind, full.len()), json!({"text": full}));
+            }
+            t_canon_err(&e, STMT_PREFIX.len())
+        }
+        Err(p) => {
+            viol_once(rep, "neumann_parser::parse/panic", &format!("parse panicked: {p}"), json!({"text": full}));
+            format!("panic {p}")
+        }
+    };
+    let s2 = format!("{stream}.stmt");
+    rep.case(&s2, None);
+    rep.compare(&s2, || json!({"text": full}), &simp, &smodel);
+}
+
+const TEXT_PIECES: &[&str] = &[
+    "a", "b1", "_c", "x", "status", "Type", "depth", "count", "SUM", "min", "f", "t", "NULL", "null", "TRUE", "false",
+    "1", "23", "4.5", "1e3", "1e", "9223372036854775808", "'s'", "'it''s'", "\"q\"", "'open", "'a\\'b'",
+    "+", "-", "*", "/", "%", "=", "!=", "<>", "<", "<=", ">", ">=", "AND", "or", "||", "&", "|", "^", "<<", ">>",
+    "NOT", "not", "!", "~", "(", ")", "[", "]", ",", ".", ";", ":", "{", "}", "@", "?", "#",
+    "IS", "is", "IN", "in", "BETWEEN", "between", "LIKE", "like", "CASE", "WHEN", "THEN", "ELSE", "END", "DISTINCT",
+    "EXISTS", "SELECT", "CAST", "AS", "FROM", "WHERE",
+    " ", " ", " ", " ", "  ", "\n", "\t", "-- c\n", "/* c */", "/* a /* b */ c */", "/*", "--",
+    "é", "ß", "\u{00A0}", "\u{2028}", "\u{0663}", "\u{1F600}", "\u{017F}", "`", "\\", "&&", "::", "->", "=>",
+];
+
+fn stream_text(m: &mut Model, rep: &mut Report, rng: &Rng, thorough: bool) {
+    for t in [
+        "", " ", "a", "a IS NOT NULL", "- x.y * 2", "f(1,", "a + ) b", "(1).*", "1 'open", "EXISTS (", "EXISTS (SELECT 1)", "x IN (SELECT 1)",
+        "CAST(a AS INT)", "a BETWEEN 1 AND 2 * 3", "NOT a NOT LIKE 'p%' OR b", "count(DISTINCT *)", "status.*", "select", "1 +", "1 + é",
+        "a /* never closed", "a -- c", "'é' || \"\u{1F600}\"", "a.b.c.*", "i\u{017F} null", "x i\u{017F} null", "[1, [2, (3, 4)], ()]",
+        "CASE WHEN a THEN b", "CASE a END", "1e", "1 2", "9223372036854775808", "- 9223372036854775808", "a\u{00A0}+\u{3000}b", "a ORDER BY b",
+    ] {
+        text_case(m, rep, t, "text.directed");
+    }
+    let mut r = rng.fork("text.pieces");
+    let n = if thorough { 30000 } else { 2500 };
+    for _ in 0..n {
+        let len = r.below(14) as usize;
+        let glue = r.chance(1, 3);
+        let mut text = String::new();
+        for i in 0..len {
+            if i > 0 && !glue && r.chance(3, 4) {
+                text.push(' ');
+            }
+            text.push_str(*r.pick(TEXT_PIECES));
+        }
+        text_case(m, rep, &text, "text.pieces");
+    }
+    // valid expressions with character-level edits
+    let mut r = rng.fork("text.mutant");
+    let n = if thorough { 30000 } else { 2500 };
+    for _ in 0..n {
+        let mut na = 0;
+        let depth = 2 + r.below(3) as usize;
+        let t = f_gen(&mut r, depth, &mut na);
+        let mut pol = Vec::new();
+        t.polish(&mut pol);
+        let words = words_of(&m.ask(&format!("fprint min {}", pol.join(" "))));
+        let fancy = r.chance(1, 4);
+        let rd = f_render(&words, &mut r, fancy);
+        let mut chars: Vec<char> = rd.text.chars().collect();
+        for _ in 0..r.below(3) {
+            if chars.is_empty() {
+                break;
+            }
+            let i = r.below(chars.len() as u64) as usize;
+            match r.below(4) {
+                0 => {
+                    chars.remove(i);
+                }
+                1 => {
+                    let p = *r.pick(TEXT_PIECES);
+                    for (k, c) in p.chars().enumerate() {
+                        chars.insert(i + k, c);
+                    }
+                }
+                2 => chars.truncate(i),
+                _ => {
+                    let j = r.below(chars.len() as u64) as usize;
+                    chars.swap(i, j);
+                }
+            }
+        }
+        let text: String = chars.into_iter().collect();
+        text_case(m, rep, &text, "text.mutant");
+    }
+}
+
 // ------------------------------------------------------------------ main
 
 fn main() {
@@ -4254,6 +4466,7 @@ fn main() {
     stream_select(&mut m, &mut rep, &rng, args.thorough);
     stream_nest(&mut m, &mut rep, &rng, args.thorough);
     stream_lex(&mut m, &mut rep, &rng, args.thorough);
+    stream_text(&mut m, &mut rep, &rng, args.thorough);
     f_chains(&mut m, &mut rep, &rng, args.thorough);
     stream_full(&mut m, &mut rep, &rng, args.thorough);
     stream_adversarial(&mut rep, &rng, args.thorough);
